@@ -178,7 +178,15 @@ type balanceHubActor[T any] struct {
 	seqNo      uint64
 	cancelled  int
 	nextSlot   int // round-robin cursor for selecting next recipient
-	config     StageConfig
+	// buf holds elements that arrived while no active slot had outstanding
+	// demand. This happens when a slot cancels after its demand was counted in
+	// a pull: the elements requested on its behalf are still in flight. They
+	// are handed to the next slot that signals demand instead of being lost.
+	buf queue
+	// upstreamDone records that upstream completed while buf was non-empty;
+	// completion is propagated once the buffer has drained.
+	upstreamDone bool
+	config       StageConfig
 }
 
 func (a *balanceHubActor[T]) PreStart(_ *actor.Context) error { return nil }
@@ -197,40 +205,25 @@ func (a *balanceHubActor[T]) Receive(rctx *actor.ReceiveContext) {
 
 	case *slotDemand:
 		a.demand[msg.slot] += msg.n
+		if a.dispatch(rctx) {
+			return
+		}
 		a.maybePull(rctx)
 
 	case *streamElement:
 		a.pending--
-		// Route to the next slot with available demand (round-robin).
-		chosen := -1
-		for i := 0; i < a.n; i++ {
-			idx := (a.nextSlot + i) % a.n
-			if a.slots[idx] != nil && a.demand[idx] > 0 {
-				chosen = idx
-				break
-			}
-		}
-
-		if chosen >= 0 {
-			a.seqNo++
-			rctx.Tell(a.slots[chosen], &streamElement{
-				subID: a.slotSubIDs[chosen],
-				value: msg.value,
-				seqNo: a.seqNo,
-			})
-			a.demand[chosen]--
-			a.nextSlot = (chosen + 1) % a.n
-		}
+		a.buf.push(msg.value)
+		a.dispatch(rctx)
 		// Pull more if demand remains.
 		a.maybePull(rctx)
 
 	case *streamComplete:
-		for i, slot := range a.slots {
-			if slot != nil {
-				rctx.Tell(slot, &streamComplete{subID: a.slotSubIDs[i]})
-			}
+		if !a.buf.empty() {
+			// elements are still waiting for a slot with demand
+			a.upstreamDone = true
+			return
 		}
-		rctx.Shutdown()
+		a.complete(rctx)
 
 	case *streamError:
 		for i, slot := range a.slots {
@@ -259,13 +252,60 @@ func (a *balanceHubActor[T]) Receive(rctx *actor.ReceiveContext) {
 
 func (a *balanceHubActor[T]) PostStop(_ *actor.Context) error { return nil }
 
+// dispatch routes buffered elements, in arrival order, each to the next slot
+// with available demand (round-robin). Elements stay buffered while no active
+// slot has demand. It reports whether the hub completed: upstream is done and
+// the last buffered element has been handed over.
+func (a *balanceHubActor[T]) dispatch(rctx *actor.ReceiveContext) bool {
+	for !a.buf.empty() {
+		chosen := -1
+		for i := 0; i < a.n; i++ {
+			idx := (a.nextSlot + i) % a.n
+			if a.slots[idx] != nil && a.demand[idx] > 0 {
+				chosen = idx
+				break
+			}
+		}
+
+		if chosen < 0 {
+			return false
+		}
+
+		a.seqNo++
+		rctx.Tell(a.slots[chosen], &streamElement{
+			subID: a.slotSubIDs[chosen],
+			value: a.buf.pop(),
+			seqNo: a.seqNo,
+		})
+		a.demand[chosen]--
+		a.nextSlot = (chosen + 1) % a.n
+	}
+
+	if a.upstreamDone {
+		a.complete(rctx)
+		return true
+	}
+	return false
+}
+
+// complete propagates upstream completion to every active slot and stops the hub.
+func (a *balanceHubActor[T]) complete(rctx *actor.ReceiveContext) {
+	for i, slot := range a.slots {
+		if slot != nil {
+			rctx.Tell(slot, &streamComplete{subID: a.slotSubIDs[i]})
+		}
+	}
+	rctx.Shutdown()
+}
+
 // maybePull requests elements from upstream when at least one active slot has
-// outstanding demand and no elements are currently in flight.
+// outstanding demand not already covered by buffered elements and no elements
+// are currently in flight.
 func (a *balanceHubActor[T]) maybePull(rctx *actor.ReceiveContext) {
-	if a.upstream == nil || a.pending > 0 {
+	if a.upstream == nil || a.pending > 0 || a.upstreamDone {
 		return
 	}
-	total := a.totalDemand()
+	total := a.totalDemand() - int64(a.buf.len())
 	if total <= 0 {
 		return
 	}
